@@ -139,6 +139,9 @@ type Scenario struct {
 	// in a driver copy of its own; Init paths are relative to the driver directory and the
 	// projected directory is <driver>/__snapshots__.
 	DefaultLoc bool
+	// WatchRel: further directories (relative to the package directory of the driver variant) to
+	// project, for relative Dir options (C11)
+	WatchRel []string
 }
 
 // Result of running a scenario
@@ -292,6 +295,12 @@ func runScenarios(sc *Scratch, d *Driver, scs []*Scenario, workers int, pool ...
 			d = <-pool[0]
 			defer func() {
 				os.RemoveAll(filepath.Join(d.Dir, "__snapshots__"))
+				for _, w := range first.WatchRel {
+					os.RemoveAll(filepath.Join(d.Dir, strings.Split(w, "/")[0]))
+					os.RemoveAll(filepath.Join(d.Dir, "sub", "deep", strings.Split(w, "/")[0]))
+				}
+				os.RemoveAll(filepath.Join(d.Dir, "sub", "deep", "__snapshots__"))
+				os.RemoveAll(filepath.Join(d.Dir, "abs"))
 				pool[0] <- d
 			}()
 			r := runs[idx[0]]
@@ -315,7 +324,17 @@ func runScenarios(sc *Scratch, d *Driver, scs []*Scenario, workers int, pool ...
 				script.State = p0.State
 				script.Watch = []string{r.Dir}
 				if first.DefaultLoc {
-					script.Watch = []string{filepath.Join(d.Dir, "__snapshots__")}
+					pkg := d.Dir
+					if strings.HasPrefix(p0.Spec.Variant, "deep") {
+						pkg = filepath.Join(d.Dir, "sub", "deep")
+					}
+					script.Watch = []string{filepath.Join(pkg, "__snapshots__")}
+					for _, w := range first.WatchRel {
+						script.Watch = append(script.Watch, filepath.Join(pkg, w))
+					}
+					if len(first.WatchRel) > 0 {
+						script.Watch = append(script.Watch, filepath.Join(r.Dir, "abs"))
+					}
 				}
 			} else {
 				for _, i := range idx {
